@@ -22,7 +22,9 @@ from .tape import Tape
 WORDS = ['alpha', 'beta', 'gamma', 'delta', 'eps', 'zeta', 'eta', 'theta', 'iota', 'kappa', 'x', 'y', 'Foo', 'Bar', 'baz2', 'q9',
          'lorem', 'ipsum', 'dolor', 'sit', 'amet', 'I', 'a', 'Zed', 'mu', 'nu', 'xi', 'omicron', 'rho', 'sigma', 'tau', 'word',
          # zero-width space, soft hyphen, word joiner inside a word: not whitespace, must stay where they are
-         'zero\u200bwidth', 'soft\u00adhyphen', 'word\u2060joiner']
+         'zero\u200bwidth', 'soft\u00adhyphen', 'word\u2060joiner',
+         # just outside the autolink syntax (scheme of 1 or 33 characters): literal text
+         '<a:b>', '<abcdefghijklmnopqrstuvwxyz0123456:x>']
 TRAIL = ['', '', '', '', ',', '.', ';', '!', '?', ':']
 CODE_CONTENT = ['x', 'a b', '*a*', '<b>', 'a`b', '`', '[x](y)', 'a\\b', '&amp;', ' x', 'x ', ' x ', '1 < 2', '``', 'a``b`c', '_', '  ',
                 'f(x)', '"q"', "it's", 'a|b', '$x$', '#', '>', 'x  y']
@@ -30,7 +32,7 @@ DESTS = ['/url', 'http://a.b/c?d=e&f=g', '#frag', 'a_b', '/p(q)r', 'x', '/a%20b'
          '/ä', '/with"quote', "/with'apos"]
 SPACE_DESTS = ['/my url', 'a b c', '/p)q', '']
 TITLES = ['', '', '', 't', 'two words', "it's", 'say "hi"', 'a (b) c', 'x&y', '<tag>', 'ä']
-AUTOLINKS = ['http://example.com/a?b=c', 'https://x.y/z_w', 'mailto:a@b.c', 'irc://foo.bar:2233/baz', 'a+b.c-d:e', 'http://a.b/*c*']
+AUTOLINKS = ['ws://h/p', 'im:x', 'a2:b', 'abcdefghijklmnopqrstuvwxyz012345:x', 'http://example.com/a?b=c', 'https://x.y/z_w', 'mailto:a@b.c', 'irc://foo.bar:2233/baz', 'a+b.c-d:e', 'http://a.b/*c*']
 EMAILS = ['a@b.c', 'foo.bar@example.com', 'x+y@z-w.org']
 RAW_INLINE = ['<span class="a">', '</span>', '<br/>', '<!-- c -->', '<b>', '<a href="x" title=\'y\'>', '<?php x ?>', '<![CDATA[ x ]]>',
               '<i data-x=1>', '<!DOCTYPE x>']
@@ -136,6 +138,11 @@ def gen_inlines(c, depth=0, allow_link=True, allow_break=True, n=None, allow_htm
             it = gen_link(c, depth, image=True)
         elif k < 82 and allow_link:
             it = N('autolink', url=t.choice(EMAILS) if t.chance(60) else t.choice(AUTOLINKS))
+        elif k < 86 and allow_html and c.reflow and 'reflow_html' not in c.exclude:
+            # tags that cannot open an HTML block wherever the reflow puts them (no block-level names, comments or
+            # processing instructions; a tag broken over two lines is never complete on its line)
+            it = N('html', raw=t.choice(['<i>', '</i>', '<kbd>', '</kbd>', '<span\nclass="k">', '<i\nid=k>', '</span>'] if allow_break
+                                        else ['<i>', '</i>', '<kbd>', '</kbd>']))
         elif k < 86 and allow_html and not c.reflow:
             it = N('html', raw=t.choice(RAW_INLINE + RAW_INLINE_ML if (allow_break and not c.canonical) else RAW_INLINE))
         elif k < 89 and depth < 1:
@@ -315,6 +322,18 @@ def gen_blocks(c, depth, n, in_item=False, in_quote=False, tight=False):
             k = 30 + t.below(14)       # outline mode: a heading (ATX or setext) more often
         if tight:
             b = N('para', inl=gen_inlines(c, allow_break=True))
+        elif k < 30 and k >= 27 and c.refs and not c.canonical and not c.reflow and not tight:
+            # looks like a link reference definition but is none (text after the title on its last line; the title began
+            # on the destination's line, so not even the first line stands as a definition): a paragraph, nothing defined
+            fake = t.choice(['[nodef]: /url "title" junk', '[nodef]: /url "title\nmore" junk', '[nodef]: /url (t) (u)',
+                             "[nodef]: /url 'one\ntwo\nthree' x", '[nodef]: /url "unclosed', '[nodef]: /u v'])
+            parts = fake.split('\n')
+            inl = []
+            for pi, part in enumerate(parts):
+                if pi:
+                    inl.append(N('soft', indent=0))
+                inl.append(N('text', s=part))
+            b = N('para', inl=inl)
         elif k < 30:
             if k < 3 and not c.canonical and not c.reflow and not c.outline and 'emphsrc' not in c.exclude:
                 # a paragraph of delimiter runs, letters and punctuation; its reading is the emphasis model's (C06's oracle)
@@ -364,7 +383,7 @@ def gen_atx(c):
     level = 1 + t.below(6)
     if c.outline:
         level = outline_level(c)
-        inl = outline_title(c)
+        inl = outline_title(c, allow_empty=True)
     else:
         inl = gen_inlines(c, allow_break=False, n=1 + t.below(3)) if not t.chance(20) else []
     closing = '' if (c.canonical and False) else t.choice(['', '', '#', '###', '##'])
@@ -379,10 +398,12 @@ TITLE_HTMLISH = ['AT&T', 'a<b', '"q"', "it's", 'R&D', '<', '&', 'a&b;', '&amp', 
 TITLE_WORDS = ['Intro', 'Usage', 'alpha', 'beta', 'Install', 'notes', 'API', 'x', 'Part', 'two', 'Background', 'more', 'Zed']
 
 
-def outline_title(c):
+def outline_title(c, allow_empty=False):
     """1-4 plain words, some of them wrapped in emphasis / strong / code / link markup (plain text unchanged)."""
     t = c.t
     items = []
+    if c.o.get('outline_rich') and allow_empty and t.chance(14):
+        return []           # a heading without text (ATX only)
     for _ in range(1 + t.below(4)):
         w = N('text', s=t.choice(TITLE_WORDS))
         k = t.below(12)
@@ -486,13 +507,17 @@ def gen_fence(c):
         info = 'py'
     if 'charref' in c.exclude and ('&' in info or '\\' in info):
         info = 'py'
+    tilde_info = False
+    if ch == '~' and not c.canonical and t.chance(24):
+        info = t.choice(['~x', '~~~ y', '~'])       # an info string may begin with a tilde when a space separates it from the fence
+        tilde_info = True
     n = t.choice([3, 3, 4, 6])
     # the fence must be longer than any run of its character that could close it
     for ln in lines:
         m = re.match(r'^ {0,3}(`+|~+) *$', ln)
         if m and m.group(1)[0] == ch:
             n = max(n, len(m.group(1)) + 1)
-    return N('fence', ch=ch, n=n, info=info, isp=t.choice(['', ' ']) if info and not c.canonical else '', lines=lines,
+    return N('fence', ch=ch, n=n, info=info, isp=(t.choice([' ', '  ']) if tilde_info else t.choice(['', ' '])) if info and not c.canonical else '', lines=lines,
              cextra=0 if c.canonical else t.weighted([(4, 0), (1, 1), (1, 3)]), ctrail='' if c.canonical else t.choice(['', '', ' ']),
              unclosed=False)
 
